@@ -348,7 +348,14 @@ func c12PositionLocks(h *History, blk *BlockRecord) []Violation {
 				}
 			}
 		}
-		if !ownerClosed || liquidated {
+		// a position that owes nothing can never be liquidatable: whoever asks and however (a liquidation request naming
+		// it, the sweep), its locked shares stay where they are; with debt, only the owner's own close is judged here
+		// (whether a third party's liquidation was justified is C10's question)
+		debtFree := pos.Liabilities.IsZero()
+		if debtFree {
+			h.Labels["lp-debt-free-position-blocks"]++
+		}
+		if !debtFree && (!ownerClosed || liquidated) {
 			continue
 		}
 		pa := pos.GetPositionAddress().String()
@@ -372,8 +379,15 @@ func c12PositionLocks(h *History, blk *BlockRecord) []Violation {
 		if !locked.IsPositive() {
 			continue
 		}
-		h.Labels["lp-owner-close-under-lock"]++
+		if ownerClosed {
+			h.Labels["lp-owner-close-under-lock"]++
+		}
 		after := h.Cur.CommittedOf(pa, d)
+		if after.LT(locked) && debtFree && !ownerClosed {
+			out = append(out, Violation{Sig: "C12/position-lock-bypassed", Detail: fmt.Sprintf("leveragelp position %d of %s owes nothing (it can never be liquidatable), yet committed %s at its address went from %s to %s although %s is locked until after this block's time (height %d; %s)",
+				pos.Id, h.W.nameOf(pos.Address), d, h.Prev.CommittedOf(pa, d), after, locked, h.Cur.Height, blockSummary(blk))})
+			continue
+		}
 		if after.LT(locked) {
 			out = append(out, Violation{Sig: "C12/position-lock-bypassed", Detail: fmt.Sprintf("owner %s closed leveragelp position %d by MsgClose and took committed %s at the position address from %s to %s although %s is locked until after this block's time (height %d; %s)",
 				h.W.nameOf(pos.Address), pos.Id, d, h.Prev.CommittedOf(pa, d), after, locked, h.Cur.Height, blockSummary(blk))})
@@ -626,6 +640,7 @@ func CheckC15(h *History, blk *BlockRecord) []Violation {
 		denoms[c.Denom] = true
 		h.Labels["burner-burnt/"+c.Denom]++
 	}
+	out = append(out, c15EdenLedger(h, blk)...)
 	for _, d := range sortedKeys(denoms) {
 		before, after := h.Prev.Supply.AmountOf(d), s.Supply.AmountOf(d)
 		after = after.Add(burnt.AmountOf(d)) // supply as it would be without the explicit burn
@@ -663,6 +678,118 @@ func CheckC15(h *History, blk *BlockRecord) []Violation {
 		}
 	}
 	return out
+}
+
+// edenLedgerTotal: all Eden in existence. Eden lives only in the commitment ledger: claimed and committed Eden of
+// every holder (module accounts included) plus the not-yet-released part of every Eden->ELYS vesting entry.
+func edenLedgerTotal(s *Snapshot) sdkmath.Int {
+	t := sdkmath.ZeroInt()
+	for _, c := range s.Commitments {
+		t = t.Add(c.Claimed.AmountOf(ptypes.Eden))
+		for _, ct := range c.CommittedTokens {
+			if ct.Denom == ptypes.Eden {
+				t = t.Add(ct.Amount)
+			}
+		}
+		for _, v := range c.VestingTokens {
+			if v != nil && v.Denom == ptypes.Elys && v.TotalAmount.GT(v.ClaimedAmount) {
+				t = t.Add(v.TotalAmount.Sub(v.ClaimedAmount))
+			}
+		}
+	}
+	return t
+}
+
+// edenOf: one holder's Eden (see edenLedgerTotal).
+func edenOf(s *Snapshot, addr string) sdkmath.Int {
+	t := sdkmath.ZeroInt()
+	for _, c := range s.Commitments {
+		if c.Creator != addr {
+			continue
+		}
+		t = t.Add(c.Claimed.AmountOf(ptypes.Eden))
+		for _, ct := range c.CommittedTokens {
+			if ct.Denom == ptypes.Eden {
+				t = t.Add(ct.Amount)
+			}
+		}
+		for _, v := range c.VestingTokens {
+			if v != nil && v.Denom == ptypes.Elys && v.TotalAmount.GT(v.ClaimedAmount) {
+				t = t.Add(v.TotalAmount.Sub(v.ClaimedAmount))
+			}
+		}
+	}
+	return t
+}
+
+// c15EdenLedger: native tokens are minted only as vesting releases, and every released unit consumes one unit of
+// Eden from the ledger – so nobody may conjure Eden either. Moving Eden between claimed, committed and vesting
+// (vest, cancel, commit, uncommit, stake) conserves the ledger total; releases and vest-now lower it; the only
+// inflow is the protocol's per-block reward mint, bounded by the inflation schedule in force. The total may
+// therefore never grow by more than that mint within one block.
+func c15EdenLedger(h *History, blk *BlockRecord) []Violation {
+	before, after := edenLedgerTotal(h.Prev), edenLedgerTotal(h.Cur)
+	ctx := h.W.ReadCtx()
+	perYear := uint64(0)
+	for _, inf := range h.W.App.TokenomicsKeeper.GetAllTimeBasedInflation(ctx) {
+		if inf.Inflation != nil && inf.StartBlockHeight <= uint64(h.Cur.Height) && uint64(h.Prev.Height) <= inf.EndBlockHeight {
+			perYear += inf.Inflation.LmRewards + inf.Inflation.IcsStakingRewards + inf.Inflation.CommunityFund + inf.Inflation.StrategicReserve + inf.Inflation.TeamTokensVested
+		}
+	}
+	bpy := h.W.App.ParameterKeeper.GetParams(ctx).TotalBlocksPerYear
+	if bpy == 0 {
+		return nil
+	}
+	// twice the scheduled amount per block plus a few units of rounding
+	bound := sdkmath.NewIntFromUint64(perYear).QuoRaw(int64(bpy)).MulRaw(2).AddRaw(10)
+	h.Labels["c15-eden-ledger-checked"]++
+	// the same per holder, exactly: an account whose only successful transactions in the block move Eden between
+	// claimed, committed and vesting (vest, cancel, claim vesting, vest-now) and that owns no
+	// leveraged position (whose forced close would pay rewards out to it) has no Eden inflow at all
+	var out []Violation
+	for _, a := range h.W.Accounts {
+		addr := a.Addr.String()
+		moves, other := 0, 0
+		for _, tx := range blk.Txs {
+			if tx.Code != 0 || tx.Signer != a.Name {
+				continue
+			}
+			switch tx.Msg.(type) {
+			case *ctypes.MsgVest, *ctypes.MsgCancelVest, *ctypes.MsgClaimVesting, *ctypes.MsgVestNow:
+				// (commit / uncommit / stake are NOT in this set: committed Eden is a virtual delegation, changing it makes
+				// the distribution hooks pay the delegator's accrued staking rewards – Eden included – on the spot)
+				moves++
+			default:
+				other++
+			}
+		}
+		if moves == 0 || other > 0 {
+			continue
+		}
+		owns := false
+		for _, p := range h.Prev.LPPositions {
+			if p.Address == addr {
+				owns = true
+			}
+		}
+		if owns {
+			continue
+		}
+		qb, qa := edenOf(h.Prev, addr), edenOf(h.Cur, addr)
+		h.Labels["c15-eden-holder-checked"]++
+		if qa.GT(qb) {
+			out = append(out, Violation{Sig: "C15/eden-conjured", Detail: fmt.Sprintf("%s's Eden (claimed + committed + unreleased vesting) grew %s -> %s in a block in which it only moved Eden between claimed and vesting (vest / cancel / claim vesting / vest-now): Eden that can be vested into native tokens came from nowhere (height %d; %s)",
+				a.Name, qb, qa, h.Cur.Height, blockSummary(blk))})
+		}
+	}
+	if len(out) > 0 {
+		return out
+	}
+	if growth := after.Sub(before); growth.GT(bound) {
+		return []Violation{{Sig: "C15/eden-conjured", Detail: fmt.Sprintf("the Eden ledger total (claimed + committed + unreleased vesting, all holders) grew %s -> %s (+%s) in one block; the inflation schedule mints at most %s per block – Eden that can be vested into native tokens came from nowhere (height %d; %s)",
+			before, after, growth, bound, h.Cur.Height, blockSummary(blk))}}
+	}
+	return nil
 }
 
 // c15VaultShares: vault shares are "minted only against deposits": what the block minted (supply change
